@@ -59,25 +59,25 @@ def run(ctx):
     ctx._core_bin = binary
     # 1. design level: detailed pool protocols
     big = {"Getters": '{"g1", "g2", "g3"}', "Rounds": "2"}
-    ctx.tlc_expect_ok("EventPoolLowMem", "EventPoolLowMem_fixed.cfg", timeout=900, deadlock=False, name="EventPoolLowMem/faithful")
-    ctx.tlc_expect_ok("EventPoolStd", "EventPoolStd_ok.cfg", timeout=900, deadlock=False,
+    ctx.tlc_expect_ok("EventPoolLowMem", "EventPoolLowMem_fixed.cfg", timeout=2700, deadlock=False, name="EventPoolLowMem/faithful")
+    ctx.tlc_expect_ok("EventPoolStd", "EventPoolStd_ok.cfg", timeout=2700, deadlock=False,
                       overrides={"Capacity": "2", "Getters": '{"g1", "g2", "g3"}', "Rounds": "2"} if thorough else None,
                       name="EventPoolStd/faithful")
     for mod, cfg, what in (("EventPoolLowMem", "EventPoolLowMem_d1.cfg", "heartbeat condition inverted"),
                            ("EventPoolLowMem", "EventPoolLowMem_hbexit.cfg", "heartbeat goroutine exits when nobody waits and is never restarted"),
                            ("EventPoolStd", "EventPoolStd_nohb.cfg", "heartbeat removed")):
-        r = ctx.tlc(mod, cfg, timeout=300, deadlock=False, name="%s/mutant (%s)" % (mod, what))
+        r = ctx.tlc(mod, cfg, timeout=900, deadlock=False, name="%s/mutant (%s)" % (mod, what))
         if r.ok or r.violated != "NoWedge":
             raise vlib.Infra("spec mutant '%s' of %s does not wedge (violated=%s): mechanism vacuous" % (what, mod, r.violated))
     # stream / streamer protocol at mutex granularity
-    ctx.tlc_expect_ok("StreamProto", "StreamProto_base.cfg", timeout=900, deadlock=False,
+    ctx.tlc_expect_ok("StreamProto", "StreamProto_base.cfg", timeout=2700, deadlock=False,
                       overrides={"NEvents": "4"} if thorough else None, name="StreamProto/faithful")
     for sw, prop in (("M_Recharge", "ChargedRight"), ("M_SignalOnPut", None), ("M_UnblockOnlyIfEmpty", "NoEventLost"),
                      ("M_CommitCheckUnderLock", "CommitMonotone")):
-        r = ctx.tlc("StreamProto", "StreamProto_base.cfg", timeout=300, deadlock=False, overrides={sw: "FALSE"}, name="StreamProto/mutant-%s" % sw)
+        r = ctx.tlc("StreamProto", "StreamProto_base.cfg", timeout=900, deadlock=False, overrides={sw: "FALSE"}, name="StreamProto/mutant-%s" % sw)
         if r.ok:
             raise vlib.Infra("spec mutant %s of StreamProto is not rejected: mechanism vacuous" % sw)
-    trap = ctx.tlc("EventPoolLowMem", "EventPoolLowMem_trap.cfg", timeout=300, deadlock=False, name="EventPoolLowMem/trap")
+    trap = ctx.tlc("EventPoolLowMem", "EventPoolLowMem_trap.cfg", timeout=900, deadlock=False, name="EventPoolLowMem/trap")
     if trap.ok or trap.violated != "NeverLostWakeup":
         raise vlib.Infra("trap property did not produce the lost-wake-up schedule")
     ctx.sample({"lost_wakeup_schedule_from_TLC": trap.trace[-1][1].get("gate", "")})
@@ -87,14 +87,14 @@ def run(ctx):
     if thorough:
         lives.append({"HasDQ": "TRUE", "MaxFails": "2", "Classes": '{"P"}'})
     for ov in lives:
-        ctx.tlc_expect_ok("Pipeline", "Pipeline_live.cfg", timeout=900, deadlock=False, overrides=ov, name="Pipeline/live %s" % json.dumps(ov))
-    r = ctx.tlc("Pipeline", "Pipeline_live.cfg", timeout=300, deadlock=False, overrides=dict(split, M_TimerFlushesAny="FALSE"),
+        ctx.tlc_expect_ok("Pipeline", "Pipeline_live.cfg", timeout=2700, deadlock=False, overrides=ov, name="Pipeline/live %s" % json.dumps(ov))
+    r = ctx.tlc("Pipeline", "Pipeline_live.cfg", timeout=900, deadlock=False, overrides=dict(split, M_TimerFlushesAny="FALSE"),
                 name="Pipeline/live mutant (heartbeat flushes only batches with deliverable events)")
     if r.ok or r.violated != "EventuallyQuiescent":
         raise vlib.Infra("spec mutant M_TimerFlushesAny is not rejected by EventuallyQuiescent (violated=%s): mechanism vacuous" % r.violated)
     # 2. real pools: constructed window + ordinary blocking + churn
     out = os.path.join(ctx.scratch, "c04_pools.json")
-    rc, txt = ctx.run_bin(binary, "^TestVerifC04Pools$", env={"VERIF_OUT": out}, timeout=900)
+    rc, txt = ctx.run_bin(binary, "^TestVerifC04Pools$", env={"VERIF_OUT": out}, timeout=2700)
     if rc != 0 or not os.path.exists(out):
         crash = core.classify_crash(txt)
         if crash is None:
@@ -130,13 +130,13 @@ def run(ctx):
     ctx.sample(res[0])
     # lock order between stream.mu and the streamer's blocked list (LockOrder.tla: the faithful model never deadlocks, the mutant --
     # tryUnblock called under blockedMu -- does)
-    ctx.tlc_expect_ok("LockOrder", "LockOrder_ok.cfg", timeout=300, deadlock=True, name="LockOrder/faithful")
-    r = ctx.tlc("LockOrder", "LockOrder_mut.cfg", timeout=300, deadlock=True, name="LockOrder/mutant (heartbeat holds blockedMu over tryUnblock)")
+    ctx.tlc_expect_ok("LockOrder", "LockOrder_ok.cfg", timeout=900, deadlock=True, name="LockOrder/faithful")
+    r = ctx.tlc("LockOrder", "LockOrder_mut.cfg", timeout=900, deadlock=True, name="LockOrder/mutant (heartbeat holds blockedMu over tryUnblock)")
     if r.ok or r.kind != "deadlock":
         raise vlib.Infra("spec mutant M_HeartbeatWorksOnCopy of LockOrder does not deadlock (%s)" % r.violated)
     # 2b. the real stream: two finalizations of one stream in a constructed window (StreamProto: M_CommitCheckUnderLock) and racing
     out3 = os.path.join(ctx.scratch, "c04_stream.json")
-    rc, txt = ctx.run_bin(binary, "^TestVerifC04Stream$", env={"VERIF_OUT": out3}, timeout=300)
+    rc, txt = ctx.run_bin(binary, "^TestVerifC04Stream$", env={"VERIF_OUT": out3}, timeout=900)
     if rc != 0 or not os.path.exists(out3):
         crash = core.classify_crash(txt)
         if crash is None:
@@ -166,8 +166,8 @@ def run(ctx):
     core.execute_and_validate(ctx, "C04", core.detach_scenarios(ctx, 60 if thorough else 16, 9200), par=8)
     # processor-pool growth: ProcGrowth.tla (liveness under fairness of joinStream and growProcs; mutant = a processor sleeping in
     # blockGet is not counted as active) and the situation on the real pipeline
-    ctx.tlc_expect_ok("ProcGrowth", "ProcGrowth_ok.cfg", timeout=300, deadlock=False, name="ProcGrowth/faithful")
-    r = ctx.tlc("ProcGrowth", "ProcGrowth_mut.cfg", timeout=300, deadlock=False, name="ProcGrowth/mutant")
+    ctx.tlc_expect_ok("ProcGrowth", "ProcGrowth_ok.cfg", timeout=900, deadlock=False, name="ProcGrowth/faithful")
+    r = ctx.tlc("ProcGrowth", "ProcGrowth_mut.cfg", timeout=900, deadlock=False, name="ProcGrowth/mutant")
     if r.ok or r.violated != "Attended":
         raise vlib.Infra("spec mutant M_BlockedCountsAsActive is not rejected (violated=%s)" % r.violated)
     procs = 2 * (os.cpu_count() or 8)           # runtime.GOMAXPROCS(0) * 2 in the harness process
